@@ -168,6 +168,10 @@ def observed(sf, r):
     return {'t': 'element', 'v': norm(r)}
 
 
+def _window_sig(w):
+    return type(w).__name__ + 'x'.join(str(k) for k in w.shape)
+
+
 def _apply_len(*a):
     return len(a[-1]) + 7
 
@@ -351,6 +355,7 @@ class QuiltWorld(WorldBase):
             op['size'] = ch.randint(1, 3)
             op['kind'] = ch.choice(['frame', 'array'])
             op['items'] = ch.chance(0.5)
+            op['wapply'] = ch.chance(0.25)
             if ch.chance(0.35):
                 # the other window options: which windows exist and how they are labelled depends on them
                 op['opts'] = {'label_shift': ch.choice([0, 1, -1, -3]), 'step': ch.choice([1, 2]), 'start_shift': ch.choice([0, 1, -1]),
@@ -365,7 +370,8 @@ class QuiltWorld(WorldBase):
             op['m'] = m
             inner = self.members[m]['index'] if self.axis == 0 else self.members[m]['columns']
             op['form'] = ch.choice(['outer', 'outer_inner', 'all_inner', 'outer_list'])
-            op['inner'] = ch.choice(inner)
+            x = ch.choice(inner)
+            op['inner'] = str(x) if isinstance(x, np.datetime64) else x  # JSON-stable: decoded again in do_q_hloc
             op['ms'] = ch.sample(range(len(self.members)), ch.randint(1, len(self.members)))
         elif what == 'bus_access':
             n = len(self.members)
@@ -662,6 +668,8 @@ class QuiltWorld(WorldBase):
         m = op['m'] % len(self.members)
         name = self.members[m]['name']
         inner = op['inner']
+        if self.date_axis and isinstance(inner, str):
+            inner = np.datetime64(inner, 'D')  # the op records dates as text (the replay file is JSON)
         form = op['form']
         if form == 'outer':
             pos = [i for i, l in enumerate(labels) if l[0] == name]
@@ -778,6 +786,18 @@ class QuiltWorld(WorldBase):
 
         def thunk():
             return windows_of(q)
+        if op.get('wapply'):
+            # function application over the windows: what the function is handed (array or Frame, its shape) and how the
+            # results are labelled, against the same call on the concatenated Frame
+            def applied(c):
+                node = (c.iter_window_array if kind == 'array' else c.iter_window)(size=size, axis=ax, **opts)
+                r = node.apply(_window_sig)
+                o = observed(sf, r)
+                return (tuple(o['index']), tuple(o['cells']))
+            st_ref, exp_ref = call(lambda: applied(self._ref_frame()))
+            if st_ref == 'raise' or not exp_ref[0]:
+                return site, None, None
+            return site + '.apply', {'t': 'tuple', 'cells': norm_list(list(exp_ref))}, lambda: applied(q)
         if opts:
             # with non-default options the expectation is the statement's own reference: the same call on the single Frame
             # made by concatenating the members (window arithmetic of a Frame is not the Quilt's business)
